@@ -83,6 +83,7 @@ REQUIRED_THEOREMS = ["block_opt_roundtrip", "blocks_tile_body", "rblock_represen
                      "app_token_only_block2_composed", "raw_token_only_after_release", "handler_token_step", "wire_token_roundtrip",
                      "never_wrong_body_block2_composed_tokens",
                      "app_token_only_block1_composed", "raw_token_only_after_release_block1", "handler_token_step_block1",
+                     "never_wrong_body_block1_composed_tokens",
                      "at_most_once_block1_run", "block1_replay_without_block0_never_delivers",
                      "block1_replayed_last_block_never_delivers", "at_most_once_block2_run",
                      "block2_replay_without_block0_never_delivers", "block2_replays_after_completion_dropped",
